@@ -635,6 +635,22 @@ func c13Check(c c13Case) *Violation {
 	case "wrong-data":
 		_, openD = c13DigestsFor(c.Seed+1000, c.Hash)
 		name = c13NameFor(openR, openD, c.Hash)
+	case "resplit":
+		// the same bytes of the two sums cut at another place: (root[:k], root[k:]+data) names the same file, and is
+		// nevertheless another pair of digests - another input or another argument list
+		all := append(append([]byte{}, rsum...), dsum...)
+		k := c.Off % (len(all) + 1)
+		if k == len(rsum) {
+			return nil
+		}
+		openR, openD = append([]byte{}, all[:k]...), append([]byte{}, all[k:]...)
+		if c.Mask == 1 && k == 0 {
+			openR = nil
+		}
+		if c.Mask == 1 && k == len(all) {
+			openD = nil
+		}
+		name = c13NameFor(openR, openD, c.Hash)
 	case "crash-body":
 		// crash before finalisation: placeholder (zero) header + a prefix of the body
 		if hdr+c.Off > len(e.finished) {
@@ -727,6 +743,8 @@ func c13Classify(c c13Case) (bool, []string) {
 			nt = true
 		}
 	case "crash-body", "crash-header", "live", "write-limit", "rewrite", "swap":
+		nt = true
+	case "resplit":
 		nt = true
 	case "prefix", "tail":
 		nt = c.Off >= 3*c13NewHash(c.Hash).Size() || c.Fault == "tail"
@@ -878,6 +896,13 @@ func TestC13(t *testing.T) {
 					}
 					if !try(mk("none", 0, 0)) || !try(mk("rename", 0, 0)) || !try(mk("wrong-root", 0, 0)) || !try(mk("wrong-data", 0, 0)) {
 						return
+					}
+					if level == levels[0] {
+						for k := 0; k <= 64; k++ {
+							if !try(mk("resplit", k, 0)) || ((k == 0 || k == 40) && !try(mk("resplit", k, 1))) {
+								return
+							}
+						}
 					}
 					for k := 0; k < 6; k++ {
 						if !try(mk("tail", k, 0)) {
